@@ -37,44 +37,47 @@ def parsePattern (p : Bytes) : Pattern :=
 
 /-- The main loop of `Match` on the remaining suffixes of pattern and name.
     `star = true`: inside the inner loop of the `'*'` case, `p` already advanced past the `*`.
-    Both index guards of the Go loop (`si >= slen`, `pi >= plen`) appear as emptiness tests, so the
-    model has no partial indexing at all. -/
-def matchAux : Bool → Bytes → Bytes → Bool
-  | _, _, [] => false                       -- unreachable: `si < slen` at every loop head
+    `none` = the Go code would index out of range (`s[si]` with `si ≥ slen`, `p.pattern[pi]` with
+    `pi ≥ plen`) and panic; `match_total` proves this never happens. -/
+def matchAux : Bool → Bytes → Bytes → Option Bool
+  | _, _, [] => none                        -- s[si] out of range
   | true, ps, sc :: ss =>
     if sc = cDot then                       -- break; pi++; si++
       match ps with
-      | [] => false                         -- pi = plen+1: both exits return false
+      | [] => some false                    -- pi = plen+1: both exits return false
       | _ :: ps' =>
-        if ss.isEmpty then ps'.isEmpty
-        else if ps'.isEmpty then false
+        if ss.isEmpty then some ps'.isEmpty
+        else if ps'.isEmpty then some false
         else matchAux false ps' ss
     else                                    -- si++
-      if ss.isEmpty then ps.isEmpty else matchAux true ps ss
-  | false, [], _ :: _ => false              -- unreachable: `pi < plen` at every loop head
+      if ss.isEmpty then some ps.isEmpty else matchAux true ps ss
+  | false, [], _ :: _ => none               -- p.pattern[pi] out of range
   | false, pc :: ps, sc :: ss =>
-    if pc = cGt then true
+    if pc = cGt then some true
     else if pc = cStar then                 -- pi++, then the first round of the inner loop
       if sc = cDot then
         match ps with
-        | [] => false
+        | [] => some false
         | _ :: ps' =>
-          if ss.isEmpty then ps'.isEmpty
-          else if ps'.isEmpty then false
+          if ss.isEmpty then some ps'.isEmpty
+          else if ps'.isEmpty then some false
           else matchAux false ps' ss
       else
-        if ss.isEmpty then ps.isEmpty else matchAux true ps ss
-    else if sc ≠ pc then false
+        if ss.isEmpty then some ps.isEmpty else matchAux true ps ss
+    else if sc ≠ pc then some false
     else                                    -- pi++; si++
-      if ss.isEmpty then ps.isEmpty
-      else if ps.isEmpty then false
+      if ss.isEmpty then some ps.isEmpty
+      else if ps.isEmpty then some false
       else matchAux false ps ss
 
-def Pattern.matches (p : Pattern) (s : Bytes) : Bool :=
-  if p.pattern.isEmpty then false
-  else if !p.hasWild then s = p.pattern
-  else if p.pattern.length > s.length then false
+/-- `ResourcePattern.Match`; `none` = panic. -/
+def Pattern.matches? (p : Pattern) (s : Bytes) : Option Bool :=
+  if p.pattern.isEmpty then some false
+  else if !p.hasWild then some (s = p.pattern)
+  else if p.pattern.length > s.length then some false
   else matchAux false p.pattern s
+
+def Pattern.matches (p : Pattern) (s : Bytes) : Bool := (p.matches? s).getD false
 
 /-- Specification: token-wise NATS wildcard matching. -/
 def tokMatch : List Bytes → List Bytes → Bool
